@@ -136,8 +136,8 @@ theorem keyEncodingOk_le (key : Bytes) :
 
 theorem checkSig_le (st : Spec.St) (sig key : Bytes) :
     Le (Spec.checkSig (mk fa sv z o p) st sig key) (Spec.checkSig (mk fb sv z o p) st sig key) := by
-  unfold Spec.checkSig Spec.mockHit
-  dsimp only
+  unfold Spec.checkSig Spec.mockHit Spec.pairListed
+  dsimp only [mk]
   refine Le.ite _ (Le.refl _) ?_
   cases sv
   all_goals dsimp only
@@ -152,8 +152,8 @@ theorem matchSigs_le (code : Bytes) (sigs keys : List Bytes) :
     cases sigs with
     | nil => exact Le.refl _
     | cons sig sigs =>
-      unfold Spec.matchSigs
-      dsimp only
+      unfold Spec.matchSigs Spec.keyListed Spec.pairListed
+      dsimp only [mk]
       repeat (first | exact ih _ | exact sigEncodingOk_le hf sv z o p sig | exact keyEncodingOk_le hf sv z o p key | le_step)
 
 theorem deleteAll_le (sigs : List Bytes) (code : Bytes) :
